@@ -163,3 +163,7 @@ def run(P: Program, R: Report, tier: str) -> None:
             ok = (tid.startswith("fresh_tid@") or tid.startswith("tid(")) and current(tid, a["epoch"])
             R.check(ok, "R04.2", st.f, u.where(), f"relabel of {strip(str(a['start']))[:40]} uses an id of sound provenance",
                     f"id {strip(tid)} (epoch at use {a['epoch']})", via="dataflow")
+    # R04.3 the track neighbours the splice / bridge steps above are justified with are the time-nearest members
+    from .neighbours import nearest_neighbour
+
+    nearest_neighbour(P, R, "R04.3")
